@@ -62,7 +62,8 @@ def native_oracle(witness, work, search_seed=None):
     try:
         if q.construct_error:
             return dict(status='error', detail=q.construct_error)
-        reqs = [[[1, 0, 0]], [[1, 0, 0], [2, 0, 0]], [[2, 0, 0], [1, 0, 0]], [[4, 0, 0], [1, 0, 0], [5, 0, 0]]]
+        reqs = [[[1, 0, 0]], [[1, 0, 0], [2, 0, 0]], [[2, 0, 0], [1, 0, 0]], [[4, 0, 0], [1, 0, 0], [5, 0, 0]],
+                [[5, 0, 0], [1, 0, 0]], [[3, 0, 2], [1, 0, 0]], [[5, 0, 0], [3, 0, 1], [1, 0, 0], [2, 0, 0]]]
         if witness.get('request'):
             reqs.insert(0, witness['request'])
         for r in reqs:
@@ -76,6 +77,19 @@ def native_oracle(witness, work, search_seed=None):
                                 detail='force surface temperature is set (%r K) but the request %s at depth 0 inside feature A returns temperature %r'
                                        % (par['Ts'], r, float.fromhex(v[off])))
                 off += 10 * p[2] if p[0] == 3 else 3 if p[0] == 5 else 1
+        # (a') outside every feature, depth 0: the forced temperature lands in the temperature slot and nowhere else
+        for r in [[[5, 0, 0], [1, 0, 0]], [[3, 0, 2], [1, 0, 0]], [[5, 0, 0], [3, 0, 1], [1, 0, 0], [2, 0, 0]]]:
+            st, v = q.ask('p3 -500e3 -500e3 3000e3 0 ' + oracle.props_arg(r))
+            if st != 'OK':
+                continue
+            off = 0
+            for p in r:
+                w = 10 * p[2] if p[0] == 3 else 3 if p[0] == 5 else 1
+                vals = [float.fromhex(x) for x in v[off:off + w]]
+                exp = [par['Ts']] if p[0] == 1 else [0.0] * w
+                if vals != exp:
+                    return dict(status='violated', request=r, detail='forced surface temperature %r K, request %s at depth 0 outside every feature: block of entry %s is %s, expected %s' % (par['Ts'], r, p, vals, exp))
+                off += w
         # (b) background outside the feature
         rnd = random.Random(search_seed or 1)
         for i in range(40):
